@@ -47,9 +47,17 @@ CHECKS.update({
          'decides image == encoding of the alternative the documented priority selects, for all code and operand values', '6 C13',
          'ambiguous structures and statements from a hand-written catalogue; which alternatives accept a text is known by construction'),
 })
+CHECKS.update({
+ 'C06': ('PIPE: arrangements of global/file/local definitions and references over <= 3 files; every constant an independent symbol, '
+         'origin symbolic; z3 decides each reference == value of the definition an independent scope resolver selects, for all values', '6 C06',
+         'arrangements enumerated (catalogue + seeded random); rejection catalogue judged by exit status'),
+ 'C17': ('PIPE: single-file programs split into <= 3 files at seeded line boundaries; z3 decides image(split) == reference image of the '
+         'unsplit text for all operand values and origins; scopes/zones across includes shared with C06/C05 models; rejection catalogue', '6 C17',
+         'split points enumerated; the reference layout of the unsplit text defines "pasted in place"'),
+})
 NA = {
 }
-PENDING = ['C06','C14','C16','C17','C19','C20']
+PENDING = ['C14','C16','C19','C20']
 NA_FIXED = {
  'C09': 'quantifier is over names/line text handled by re.findall + str.replace on concrete strings; Python re cannot run on symbolic strings and an SMT-string re-model would not be the real code (DESIGN 7)',
  'C15': 'variation enters through interpreter hash randomisation and the OS environment - process parameters, not inputs of any function the symbolic executor can run (DESIGN 7)',
